@@ -287,7 +287,16 @@ pub fn gen_tracker_case(seed: u64, o: &WorldOpts) -> TrackerCase {
     let mut r = Rng::new(seed);
     // feature length 7 + extra (own random stream: older seeds keep their cases otherwise)
     let feat_extra: usize = *Rng::new(seed ^ 0xFEA7_D1A5_0000_0001).pick(&[0usize, 0, 0, 0, 1, 2, 3, 9, 10, 17]);
-    let cfg = gen_cfg(&mut r, o);
+    let mut cfg = gen_cfg(&mut r, o);
+    // half of the constraint tables get a trailing row for a large gap with a small limit (own
+    // random stream): tables that are not monotone in the gap, and rows beyond max_idle_epochs
+    if let Some(t) = cfg.constraints.as_mut() {
+        let mut r3 = Rng::new(seed ^ 0x7AB1_E000_0000_0007);
+        if r3.chance(1, 2) {
+            t.push((r3.range(5, 8) as usize, *r3.pick(&[0.1f32, 0.15, 0.2])));
+        }
+    }
+    let cfg = cfg;
     let wide = o.wide && r.chance(1, 3);
     let n_scenes = if wide { r.range(5, 18) as u64 } else { r.range(1, o.max_scenes as i64) as u64 };
     let scene_ids: Vec<u64> = {
@@ -325,7 +334,7 @@ pub fn gen_tracker_case(seed: u64, o: &WorldOpts) -> TrackerCase {
             if long {
                 ob.immortal = true;
             }
-            if o.lookalikes && !objs.is_empty() && r.chance(1, 4) {
+            if o.lookalikes && !objs.is_empty() && r.chance(1, 2) {
                 let src = objs[r.below(objs.len() as u64) as usize].proto.clone();
                 ob.proto = src;
             }
@@ -501,7 +510,7 @@ pub fn gen_tracker_case(seed: u64, o: &WorldOpts) -> TrackerCase {
         if (o.own_area || o.stress) && !dets.is_empty() {
             let salt = ((*serial as u64) << 40) ^ ((dets.len() as u64) << 32) ^ dets[0].b.xc.to_bits() as u64;
             let mut r2 = Rng::new(crate::sched::mix(seed ^ 0x004E_57ED_B0C5, salt));
-            if r2.chance(1, 6) {
+            if r2.chance(1, 3) {
                 let k = r2.below(dets.len() as u64) as usize;
                 let mut d = dets[k].clone();
                 d.b.height *= *r2.pick(&[0.45f32, 0.6, 1.5, 1.9]);
